@@ -5,7 +5,10 @@ package main
 // loud (real disc.Member) and silent mode, rounds 0..127.
 
 import (
+	"context"
 	"fmt"
+	"strings"
+	"sync"
 	"time"
 
 	"verifharness/backend"
@@ -129,5 +132,71 @@ func unitC13sess(e common.Env, p *common.Part) {
 			p.Sample(map[string]interface{}{"ids": ids, "mode": mode, "rounds": rounds})
 		}
 		c.Stop()
+	}
+}
+
+// unitC13disc: membership synchronisation sessions of 32 members tiling the whole 16-bit range, so that every identifier
+// value takes part in at least one session (thorough) or a PRNG sample of the tiles plus the boundary tiles (quick).
+func unitC13disc(e common.Env, p *common.Part) {
+	p.Rule = "disc-only sessions of 32 real disc.Member objects whose identifiers tile the 16-bit range (tile k = {k, k+2048, k+4096, ...}: every session mixes all high-byte values; thorough: all 2048 tiles, i.e. every identifier takes part once; quick: 24 tiles incl. the first and last); all 32 members call Synchronize with expected = 32; oracle: everybody completes with the identical sorted list of the 32 identifiers; distinct key = tile; non-trivial always (every tile contains identifiers >= 256)"
+	var tiles []int
+	if e.Thorough() {
+		for k := 0; k < 2048; k++ {
+			tiles = append(tiles, k)
+		}
+	} else {
+		rng := e.Rng("c13disc")
+		tiles = []int{0, 1, 255, 256, 2047}
+		for len(tiles) < 24 {
+			tiles = append(tiles, rng.Intn(2048))
+		}
+	}
+	for i, k := range tiles {
+		if !e.Mine(i) || p.ViolationCount() >= 3 {
+			continue
+		}
+		var ids []uint16
+		for j := 0; j < 32; j++ {
+			ids = append(ids, uint16(k+2048*j))
+		}
+		key := fmt.Sprintf("tile %d (%d..%d step 2048)", k, ids[0], ids[31])
+		p.Begin(key)
+		run := func(scale int) (int, string) {
+			rng := e.Rng("c13disc", k, scale)
+			net := newDnet(ids, rng)
+			net.maxDelay = 200 * time.Microsecond
+			defer net.close()
+			ctx, cancel := context.WithTimeout(context.Background(), time.Duration(scale)*8*time.Second)
+			defer cancel()
+			var wg sync.WaitGroup
+			topic := topicFor("c13-disc", k)
+			for _, id := range ids {
+				// a probe interval in proportion to the session size: 32 members re-broadcasting every few milliseconds only overload
+				// the machine (every received view is compared with all stored ones)
+				net.start(ctx, &wg, net.add(id, "honest", true), topic, 32, 40*time.Millisecond)
+			}
+			wg.Wait()
+			if sig, what := c07judge(net, 32); sig != "" {
+				return honestCompletions(net), sig + ": " + what
+			}
+			return honestCompletions(net), ""
+		}
+		comp, viol := run(1)
+		if viol == "" && comp != 32 {
+			p.Count("watchdog_replays", 1)
+			comp, viol = run(4)
+			if viol == "" && comp != 32 {
+				viol = fmt.Sprintf("no-completion: only %d of 32 members completed although all of them invoked Synchronize (also with a 4x deadline)", comp)
+			}
+		}
+		p.Case(key, true)
+		p.Count("disc_sessions", 1)
+		p.Count("identifiers_covered", 32)
+		if viol != "" {
+			p.Violate("disc-tile/"+strings.SplitN(viol, ":", 2)[0], key+": "+viol, map[string]interface{}{"tile": k})
+		}
+		if i%7 == 0 {
+			p.Sample(map[string]interface{}{"tile": k, "first_ids": ids[:4], "completions": comp})
+		}
 	}
 }
